@@ -124,6 +124,15 @@ pub fn run(args: &Args) {
         let s = render_pool(&seq);
         let v = check_one(&mut rep, &s, "enum", &strict, false);
         enumerated += 1;
+        // the same tokens with a blank (or a line break) between every two of them: where tokens may not be
+        // separated (`[ ?`, `| |`) this is a different sequence, where they may it must be the same sentence
+        if seq.len() >= 2 && i % 2 == 0 {
+            let sep = if i % 6 == 0 { "\n" } else { " " };
+            let spaced = seq.join(sep);
+            if spaced != s {
+                check_one(&mut rep, &spaced, "enum-spaced", &strict, false);
+            }
+        }
         if seq.len() >= 3 {
             note_distinct(&mut rep, &s);
         }
@@ -191,7 +200,7 @@ pub fn run(args: &Args) {
             check_one(&mut rep, &s, "long-token", &strict, false);
             note_distinct(&mut rep, &s);
         } else if fam < 92 {
-            let s = refimpl::sentence::lookalike_case(&mut rng);
+            let s = if rng.chance(2, 3) { refimpl::sentence::lookalike_case(&mut rng) } else { refimpl::sentence::surrogate_case(&mut rng) };
             check_one(&mut rep, &s, "unicode-lookalike", &strict, false);
             note_distinct(&mut rep, &s);
             rep.sample_family("unicode-lookalike", 2, json!(s));
